@@ -322,8 +322,7 @@ def scaling(chk, repo, mw, d, eq):
                'Crust': {'radius': r3, 'thickness': r3 - r2, 'radius_inner': r2}}
     for big in (True, False):
       for form, mk_layers in forms.items():
-        def branch(itp, st, v, fr, big=big):
-            return big          # radius_scale >= 1 ?
+        branch = (lambda itp, st, v, fr, big=big: (big if isinstance(v, X.Node) and v.op == 'cmp' and 'scale' in {a_.val[0] for a_ in X.atoms_of(v)} else None))          # radius_scale >= 1 ? (only tests on the scale factor are answered)
         it = Interp(repo, hooks={'global': glob_hook, 'call': call_hook, 'branch': branch}, max_depth=12)
         Rw = r3
         layers = mk_layers()
@@ -413,7 +412,7 @@ def derivation_mass(chk, repo, mw, d):
                           'Crust': {'radius': r3, 'density': X.atom('rho2', 'pos'), 'type': 'rock'}}}
         got0 = reinit_mass(repo, cfg, m_old, glob_hook)
         old = Obj(name='old', attrs={'config': cfg, 'name': 'Xworld'})
-        it = Interp(repo, hooks={'global': glob_hook, 'call': call_hook, 'branch': (lambda itp, st, v, fr, big=('> 1' in how): big)}, max_depth=12, max_unroll=200)
+        it = Interp(repo, hooks={'global': glob_hook, 'call': call_hook, 'branch': (lambda itp, st, v, fr, big=('> 1' in how): (big if isinstance(v, X.Node) and v.op == 'cmp' and 'scale' in {a_.val[0] for a_ in X.atoms_of(v)} else None))}, max_depth=12, max_unroll=200)
         recorded.clear()
         try:
             if how.startswith('scale'):
